@@ -23,6 +23,11 @@ RULE = (
   "(sphere/capsule/box/ellipsoid bodies, stacks, articulated children) with touch sites of all 5 shapes, contact sensors "
   "(geom/body/subtree/site matching, data subsets, reduce none/mindist/maxforce/netforce, num), force/torque/accelerometer/"
   "frame*acc, rangefinder, geom distance/normal/fromto, both cones, condim 1/3/4/6. kind=tactile: mesh tactile sensor. "
+  "kind=frame: unconstrained tree of 2-4 fast-spinning bodies (free/ball/hinge/slide, jointless child, mocap, static world objects) "
+  "whose inertial frames are displaced from and rotated against the body frames (explicit inertial or unequal off-centre geoms), "
+  "each with an offset+rotated geom, site and camera (fixed/track/target modes); full cross product frame{pos,quat,x/y/zaxis,linvel,"
+  "angvel} x objtype(5) x reftype(none+5) on random objects, frame{lin,ang}acc x objtype, velocimeter/gyro/accelerometer, subtree "
+  "sensors; cutoffs of the order of the values on ~30% of the real-valued ones. "
   "3 worlds with different random states. Non-trivial: >=1 sensor with a non-zero reference value; distinct by "
   "hash(model xml, qpos, qvel of all worlds)."
 )
@@ -97,6 +102,8 @@ def cases(tier, seed):
     out.append({"id": f"con{seed}_{i}", "kind": "con", "seed": seed * 100000 + 30000 + i, "entry": ("fwd", "staged")[i % 2], "variant": i % 10, "weight": 2})
   for i in range(70 if q else 1200):
     out.append({"id": f"scene{seed}_{i}", "kind": "scene", "seed": seed * 100000 + 60000 + i, "entry": ("fwd", "staged")[i % 2], "weight": 2})
+  for i in range(16 if q else 300):
+    out.append({"id": f"frame{seed}_{i}", "kind": "frame", "seed": seed * 100000 + 80000 + i, "entry": ("fwd", "staged")[i % 2], "weight": 2})
   for i in range(4 if q else 40):
     out.append({"id": f"tactile{seed}_{i}", "kind": "tactile", "seed": seed * 100000 + 90000 + i, "entry": "fwd", "weight": 3})
   return out
@@ -272,6 +279,176 @@ TACTILE_XML = """<mujoco>
     <tactile geom="sensor_geom" mesh="sensor_mesh"/>
   </sensor>
 </mujoco>"""
+
+
+# --------------------------------------------------------------------------------------- frame-sensor cross product
+
+FRAME_REL = ("framepos", "framequat", "framexaxis", "frameyaxis", "framezaxis", "framelinvel", "frameangvel")  # take a reference frame
+FRAME_ACC = ("framelinacc", "frameangacc")
+FRAME_OT = ("body", "xbody", "geom", "site", "camera")
+FRAME_TYPES = {int(getattr(S, "mjSENS_" + k.upper())) for k in FRAME_REL + FRAME_ACC}
+SITE_MOTION = {int(S.mjSENS_VELOCIMETER), int(S.mjSENS_GYRO), int(S.mjSENS_ACCELEROMETER)}
+
+
+def frame_scene(seed):
+  """Tree of 2-4 spinning bodies (+ jointless child, mocap body, static world objects). Every moving body has an inertial frame
+  that is neither at the body origin nor aligned with it (explicit <inertial pos quat> or two unequal off-centre geoms), and a geom,
+  a site and a camera each with its own offset and orientation, so that xpos/xipos/geom_xpos/site_xpos/cam_xpos and
+  xmat/ximat/geom_xmat/site_xmat/cam_xmat are pairwise different. Sensors: every frame sensor that takes a reference frame x
+  objtype (5) x reftype (none + 5) on randomly chosen objects, frame*acc x objtype, site motion sensors, subtree sensors;
+  cutoffs of the order of the values on ~30% of the real-valued ones (MuJoCo's compiler rejects cutoff on axis/quaternion data)."""
+  rng = np.random.default_rng(seed)
+  f = gen._f
+  rq = gen._rquat
+  nb = int(rng.integers(2, 5))
+  names, parent, joints = [], {}, {}
+  for i in range(nb):
+    nm = f"fb{i}"
+    p = "world" if i == 0 or rng.random() < 0.35 else names[rng.integers(len(names))]
+    parent[nm] = p
+    if i == 0:
+      jt = ("free", "ball", "ballslide")[rng.integers(3)]
+    elif p == "world":
+      jt = ("free", "ball", "hinge2", "slidehinge")[rng.integers(4)]
+    else:
+      jt = ("ball", "hinge", "hinge", "hinge2", "slidehinge", "weld")[rng.integers(6)]
+    joints[nm] = jt
+    names.append(nm)
+  mocap = rng.random() < 0.35
+  if mocap:
+    names.append("fbm")
+    parent["fbm"] = "world"
+    joints["fbm"] = "mocap"
+  feats = set()
+
+  def off(s, lo):
+    v = rng.normal(size=3) * s
+    n = np.linalg.norm(v)
+    return v * (max(n, lo) / n)
+
+  def body_xml(nm):
+    jt = joints[nm]
+    feats.add("frame_joint:" + jt)
+    out = [f'<body name="{nm}" pos="{f(rng.normal(size=3) * 0.4 + (np.array([0, 0, 1.0]) if parent[nm] == "world" else 0))}" quat="{f(rq(rng))}"{" mocap=" + chr(34) + "true" + chr(34) if jt == "mocap" else ""}>']
+    jp = f'pos="{f(rng.normal(size=3) * 0.1)}"'
+    ax = lambda: f'axis="{f(gen._raxis(rng))}"'  # noqa: E731
+    if jt == "free":
+      out.append("<freejoint/>")
+    elif jt == "ball":
+      out.append(f'<joint type="ball" {jp}/>')
+    elif jt == "ballslide":
+      out.append(f'<joint type="slide" {ax()}/><joint type="ball" {jp}/>')
+    elif jt == "hinge":
+      out.append(f'<joint type="hinge" {jp} {ax()}/>')
+    elif jt == "hinge2":
+      out.append(f'<joint type="hinge" {jp} {ax()}/><joint type="hinge" pos="{f(rng.normal(size=3) * 0.1)}" {ax()}/>')
+    elif jt == "slidehinge":
+      out.append(f'<joint type="slide" {ax()}/><joint type="hinge" {jp} {ax()}/>')
+    gt = ("sphere", "box", "capsule", "ellipsoid", "cylinder")[rng.integers(5)]
+    gs = {"sphere": f(rng.uniform(0.04, 0.1)), "capsule": f(rng.uniform(0.03, 0.08, size=2) * [1, 2]), "cylinder": f(rng.uniform(0.03, 0.08, size=2) * [1, 2])}.get(gt, f(rng.uniform(0.03, 0.12, size=3)))
+    out.append(f'<geom name="g_{nm}" type="{gt}" size="{gs}" pos="{f(off(0.2, 0.1))}" quat="{f(rq(rng))}" contype="0" conaffinity="0" density="{f(rng.uniform(300, 2000))}"/>')
+    if rng.random() < 0.6:
+      diag = rng.uniform(0.004, 0.05, size=3)
+      diag[2] = min(diag[2], 0.9 * (diag[0] + diag[1]))
+      diag[0] = min(diag[0], 0.9 * (diag[1] + diag[2]))
+      diag[1] = min(diag[1], 0.9 * (diag[0] + diag[2]))
+      out.append(f'<inertial pos="{f(off(0.2, 0.1))}" quat="{f(rq(rng))}" mass="{f(rng.uniform(0.3, 3))}" diaginertia="{f(diag)}"/>')
+      feats.add("frame_inertia:explicit")
+    else:
+      # second, unequal geom: centre of mass between the two, principal axes along neither geom frame
+      out.append(f'<geom type="box" size="{f(rng.uniform(0.02, 0.1, size=3))}" pos="{f(off(0.25, 0.1))}" quat="{f(rq(rng))}" contype="0" conaffinity="0" density="{f(rng.uniform(300, 2000))}"/>')
+      feats.add("frame_inertia:from_geoms")
+    out.append(f'<site name="s_{nm}" type="{SITE_SHAPES[rng.integers(5)]}" size="0.03 0.04 0.05" pos="{f(off(0.2, 0.1))}" quat="{f(rq(rng))}"/>')
+    mode, tgt = "fixed", ""
+    if rng.random() < 0.3:
+      mode = ("track", "trackcom", "targetbody", "targetbodycom")[rng.integers(4)]
+      if jt == "mocap" and mode.startswith("track"):
+        mode = "fixed"
+      if mode.startswith("target"):
+        cands = [b for b in names if b != nm]
+        tgt = f' target="{cands[rng.integers(len(cands))]}"'
+      feats.add("frame_cam:" + mode)
+    out.append(f'<camera name="c_{nm}" mode="{mode}"{tgt} pos="{f(off(0.2, 0.1))}" quat="{f(rq(rng))}"/>')
+    for ch in names:
+      if parent[ch] == nm:
+        out += body_xml(ch)
+    out.append("</body>")
+    return out
+
+  wb = [
+    f'<geom name="g_world" type="box" size="0.1 0.2 0.05" pos="{f(rng.normal(size=3) * 0.5)}" quat="{f(rq(rng))}" contype="0" conaffinity="0"/>',
+    f'<site name="s_world" pos="{f(rng.normal(size=3) * 0.5)}" quat="{f(rq(rng))}" size="0.05"/>',
+    f'<camera name="c_world" pos="{f(rng.normal(size=3) * 0.5)}" quat="{f(rq(rng))}"/>',
+  ]
+  for nm in names:
+    if parent[nm] == "world":
+      wb += body_xml(nm)
+  allb = names + ["world"]
+
+  def pick(tp):
+    b = allb[rng.integers(len(allb))] if rng.random() < 0.12 else names[rng.integers(nb)]  # mostly the spinning bodies
+    return b if tp in ("body", "xbody") else {"geom": "g_", "site": "s_", "camera": "c_"}[tp] + b
+
+  sens = []
+  for k in FRAME_REL:
+    for ot in FRAME_OT:
+      for rt in (None,) + FRAME_OT:
+        cut = ""
+        if rng.random() < 0.3 and k in ("framepos", "framelinvel", "frameangvel"):  # MuJoCo rejects cutoff on axis/quaternion data
+          cut = f' cutoff="{f(rng.uniform(0.05, 1.5))}"'
+        ref = f' reftype="{rt}" refname="{pick(rt)}"' if rt else ""
+        sens.append(f'<{k} objtype="{ot}" objname="{pick(ot)}"{ref}{cut}/>')
+  for k in FRAME_ACC:
+    for ot in FRAME_OT:
+      for _ in range(2):
+        cut = f' cutoff="{f(rng.uniform(0.5, 20))}"' if rng.random() < 0.3 else ""
+        sens.append(f'<{k} objtype="{ot}" objname="{pick(ot)}"{cut}/>')
+  for nm in names[:nb]:
+    for k in ("velocimeter", "gyro", "accelerometer"):
+      cut = f' cutoff="{f(rng.uniform(0.05, 5))}"' if rng.random() < 0.3 else ""
+      sens.append(f'<{k} site="s_{nm}"{cut}/>')
+  for k in ("subtreecom", "subtreelinvel", "subtreeangmom"):
+    sens.append(f'<{k} body="{names[rng.integers(nb)]}"/>')
+  integ = ("Euler", "implicitfast", "implicit", "RK4")[rng.integers(4)]
+  xml = f"""<mujoco>
+  <option integrator="{integ}" gravity="{f(rng.normal(size=3) * 3 + [0, 0, -9.81] if rng.random() < 0.5 else [0, 0, -9.81])}"/>
+  <worldbody>
+    {chr(10).join(wb)}
+  </worldbody>
+  <sensor>
+    {chr(10).join(sens)}
+  </sensor>
+</mujoco>"""
+  return xml, feats | {"frame_cross", "integrator:" + integ}
+
+
+def _frame_body(mjm, tp, oid):
+  """Body that carries the object (tp, oid), or -1."""
+  O = mujoco.mjtObj
+  if oid < 0:
+    return -1
+  if tp in (int(O.mjOBJ_BODY), int(O.mjOBJ_XBODY)):
+    return int(oid)
+  if tp == int(O.mjOBJ_GEOM):
+    return int(mjm.geom_bodyid[oid])
+  if tp == int(O.mjOBJ_SITE):
+    return int(mjm.site_bodyid[oid])
+  if tp == int(O.mjOBJ_CAMERA):
+    return int(mjm.cam_bodyid[oid])
+  return -1
+
+
+def offcentre_spinning(mjm, mjd, b):
+  """True if body b's inertial frame is displaced from and rotated against its body frame, and the body spins about an axis
+  that is not along the displacement: the class of states in which xpos/xipos and xmat/ximat confusions are visible."""
+  if b <= 0:
+    return False
+  ip = np.array(mjm.body_ipos[b])
+  if np.linalg.norm(ip) < 0.05 or abs(mjm.body_iquat[b][0]) > 0.999:
+    return False
+  om = np.array(mjd.cvel[b][:3])
+  off = np.array(mjd.xipos[b]) - np.array(mjd.xpos[b])
+  return bool(np.linalg.norm(om) > 0.3 and np.linalg.norm(np.cross(off, om)) > 0.03)
 
 
 # --------------------------------------------------------------------------------------- reference
@@ -550,6 +727,8 @@ def build(case, rec):
     return xml, mjm, set(feats)
   if kind == "scene":
     xml, feats = contact_scene(case["seed"])
+  elif kind == "frame":
+    xml, feats = frame_scene(case["seed"])
   else:
     rng = np.random.default_rng(case["seed"])
     sc = rng.choice([0.5, 1.0])
@@ -599,6 +778,9 @@ def run_case(case):
       st["qpos"] = q.astype(np.float32)
       states.append(st)
     d = mw.make_data(mjm, m, states, nconmax=48, njmax=256)
+  elif kind == "frame":
+    states = [gen.sample_state(mjm, rng, vel=rng.choice([1.0, 3.0])) for _ in range(nworld)]
+    d = mw.make_data(mjm, m, states)
   else:
     states = [gen.sample_state(mjm, rng, vel=rng.choice([0.3, 2.0])) for _ in range(nworld)]
     d = mw.make_data(mjm, m, states, njmax=96, njmax_nnz=96 * mjm.nv) if kind == "con" else mw.make_data(mjm, m, states)
@@ -734,6 +916,7 @@ def run_case(case):
     for i in range(mjm.nsensor):
       if names[i].endswith("_all"):
         sibs[names[i][:-4]] = sibling_info(mjm, i, ref["sensordata"])
+    offc = {}  # body id -> off-centre inertial frame and spinning in this world
     for i in range(mjm.nsensor):
       t = int(mjm.sensor_type[i])
       res = judge_sensor(rec, mjm, i, got_sd[w], ref["sensordata"], noise["sensordata"], coarse, gated, struct_ok, constrained, sibs.get(names[i]), mjd, raw, cond_M, ctx + f" sensor {i} ({names[i]})")
@@ -752,6 +935,27 @@ def run_case(case):
         c = float(mjm.sensor_cutoff[i])
         if c > 0 and t not in DISTFAM:
           rec.cover("cutoff_active" if np.any(np.abs(r) == c) else "cutoff_inactive", 1)
+        if (t in FRAME_TYPES or t in SITE_MOTION) and nz:
+          # moving frames whose body origin and centre of mass differ: which (sensor, objtype) / (sensor, reftype) pairs were
+          # compared while the object's / reference's body had an off-centre, rotated inertial frame and was spinning
+          ot_, rt_ = OBJ.get(int(mjm.sensor_objtype[i]), "?"), OBJ.get(int(mjm.sensor_reftype[i]), "?")
+          bo = _frame_body(mjm, int(mjm.sensor_objtype[i]), int(mjm.sensor_objid[i]))
+          br = _frame_body(mjm, int(mjm.sensor_reftype[i]), int(mjm.sensor_refid[i])) if t in FRAME_TYPES else -1
+          spin_o = offc.setdefault(bo, offcentre_spinning(mjm, mjd, bo))
+          spin_r = offc.setdefault(br, offcentre_spinning(mjm, mjd, br))
+          if spin_o:
+            rec.cover("frame_obj_offcentre_spinning", f"{ST.get(t)}/{ot_}")
+          if spin_r:
+            rec.cover("frame_ref_offcentre_spinning", f"{ST.get(t)}/{rt_}")
+            rec.cover("frame_ref_offcentre_spinning_sensors", 1)
+            if spin_o and bo != br:
+              rec.cover("frame_obj_and_ref_offcentre_spinning", f"{ST.get(t)}/{ot_}/{rt_}")
+          if c > 0 and t in FRAME_TYPES:
+            clamped = np.abs(raw[a : a + n]) > c
+            if clamped.any() and not clamped.all():
+              rec.cover("frame_cutoff_partly_clamped", 1)
+              if spin_r:
+                rec.cover("frame_cutoff_partly_clamped_ref_spinning", 1)
         if t == int(S.mjSENS_CONTACT) and nz:
           rec.cover("contact_reduce_nonzero", ("none", "mindist", "maxforce", "netforce")[int(mjm.sensor_intprm[i, 1])])
           rec.cover("contact_match_nonzero", f"{OBJ.get(int(mjm.sensor_objtype[i]))}/{OBJ.get(int(mjm.sensor_reftype[i]))}")
@@ -804,6 +1008,27 @@ def requirements(agg, tier):
       unmet.append(f"frame sensor reftype never seen: {ot}")
   if len(trip) < 60:
     unmet.append(f"only {len(trip)} distinct (type,objtype,reftype) triples compared")
+  # frame sensors on frames whose body has an off-centre, rotated inertial frame and spins (xpos/xipos, xmat/ximat differ and matter)
+  ref_sp, obj_sp = set(cov.get("frame_ref_offcentre_spinning", [])), set(cov.get("frame_obj_offcentre_spinning", []))
+  for tp in FRAME_OT:
+    for k in FRAME_REL:
+      if f"{k}/{tp}" not in ref_sp:
+        unmet.append(f"{k} never compared with reftype={tp} on a spinning reference body with off-centre inertial frame")
+    for k in FRAME_REL + FRAME_ACC:
+      if f"{k}/{tp}" not in obj_sp:
+        unmet.append(f"{k} never compared with objtype={tp} on a spinning body with off-centre inertial frame")
+  for k in ("velocimeter", "gyro", "accelerometer"):
+    if f"{k}/site" not in obj_sp:
+      unmet.append(f"{k} never compared on a spinning body with off-centre inertial frame")
+  import os as _os  # TEMP
+  if _os.environ.get("C07_SHOW"):  # TEMP
+    print("C07_SHOW", {k: (v if isinstance(v, int) else len(v)) for k, v in cov.items() if k.startswith("frame_") or k.startswith("kind:") or k.startswith("cutoff")}, sorted(x for x in cov.get("features", []) if x.startswith("frame_")))  # TEMP
+  both = len(cov.get("frame_obj_and_ref_offcentre_spinning", []))
+  if both < 140:
+    unmet.append(f"only {both} of 175 (frame sensor, objtype, reftype) triples compared with object and reference on different spinning off-centre bodies")
+  for k, n in (("frame_ref_offcentre_spinning_sensors", 1000), ("frame_cutoff_partly_clamped", 20), ("frame_cutoff_partly_clamped_ref_spinning", 5)):
+    if cov.get(k, 0) < n:
+      unmet.append(f"coverage {k}={cov.get(k, 0)} < {n}")
   for s in ("accelerometer", "force", "torque", "touch", "contact", "framelinacc", "jointlimitfrc"):
     if s not in cov.get("solverdep_constrained_nonzero", []):
       unmet.append(f"solver-dependent sensor never compared on a constrained, gated world: {s}")
